@@ -385,6 +385,22 @@ def c03(tr, acc, case):
                               f"run quiet and unfinished at vt={tr.vt_end}: step {s_} holds {len(st['ip'])} in-progress slot(s) but {open_bodies.get(s_, 0)} of its bodies are "
                               f"executing; {st['q']} event(s) queued behind", case)
     meta = (case.get("case") or {}).get("spec", {}).get("meta", {}) if isinstance(case, dict) else {}
+    if meta.get("spin"):
+        # steps that never await: the retry's delay elapses while the loop is handed one finished worker after another; once the loop
+        # has had control after the due time, the retry must start, not wait until the queue of blocking work has drained
+        bs = tr.bodies()
+        f0 = [b for b in bs if b["step"] == "flaky" and b["att"] == 0 and b["t1"] is not None]
+        if f0:
+            due = f0[0]["t1"] + meta["retry_wait"]
+            f1 = [b for b in bs if b["step"] == "flaky" and b["att"] == 1]
+            n1 = f1[0]["n0"] if f1 else float("inf")
+            between = [b for b in bs if b["step"] == "cruncher" and b["t0"] > due + 1e-9 and b["n0"] < n1]
+            if any(b["step"] == "cruncher" and b["t0"] > due + 1e-9 for b in bs):
+                acc.hit("retry_due_while_steps_never_await")
+                if len(between) > 2:
+                    acc.violation({"mech": "due_retry_starved_by_steps_that_never_await"},
+                                  f"retry of flaky was due at vt={due}; the control loop then started {len(between)} more cruncher bodies (vt {between[0]['t0']} .. {between[-1]['t0']}) "
+                                  f"before the retry {'started at vt=' + str(f1[0]['t0']) if f1 else 'never started'}", case)
     if meta.get("retry_due") is not None:
         b1 = [b for b in tr.bodies() if b["step"] == "flaky" and b["att"] == 1]
         if b1 and b1[0]["t0"] > meta["retry_due"] + 1e-6:
